@@ -338,7 +338,7 @@ fn run_session(msgs: &[String], table: &[(String, String)], gap: u64) -> Value {
     let raw: Vec<u8> = util::block_on(async move {
         let l = tokio::net::TcpListener::bind("127.0.0.1:0").await.unwrap();
         let addr = l.local_addr().unwrap();
-        let (c, sv) = tokio::join!(tokio::net::TcpStream::connect(addr), l.accept());
+        let (c, sv) = tokio::join!(crate::util::connect_loopback(addr), l.accept());
         let (mut c, (sv, peer)) = (c.unwrap(), sv.unwrap());
         let server = tokio::spawn(async move { v::session(&router, sv, peer.ip()).await });
         let _ = c.write_all(b"GET /sse HTTP/1.1\r\nHost: x\r\nAccept: text/event-stream\r\nConnection: close\r\n\r\n").await;
